@@ -172,6 +172,10 @@ def r6(db, rep):
         br = next(iter(names))
         loops = [x for x in walk(a["body"]) if x.get("k") == "Match" and x.get("src") == "For"]
         it_owner = owner(loops[0]["scrut"]) if loops else None
+        if it_owner is None:
+            # the same loop written with an iterator quantifier: `X.constants.iter().all(|(k, v)| ..)`
+            quant = [x for x in walk(a["body"]) if x.get("k") == "MethodCall" and x.get("name") == "all"]
+            it_owner = owner(quant[0]["recv"]) if quant else None
         gets = [x for x in walk(a["body"]) if x.get("k") == "MethodCall" and x.get("name") == "get"]
         get_owner = owner(gets[0]["recv"]) if gets else None
         cmps = [x for x in walk(a["body"]) if x.get("k") == "Closure"]
